@@ -31,7 +31,8 @@ def request_variants():
     v["chunkend"] = [chunked(b"3", end=b"XX"), chunked(b"3", end=b"\n"), chunked(b"2")]
     v["badurl"] = [b"GET http://h:99999/ HTTP/1.1\r\nHost: h\r\n\r\n", b"GET http://[::1/ HTTP/1.1\r\nHost: h\r\n\r\n",
                    b"GET http://h:abc/ HTTP/1.1\r\nHost: h\r\n\r\n", b"GET //[/ HTTP/1.1\r\nHost: h\r\n\r\n",
-                   b"GET http://h:-1/ HTTP/1.1\r\nHost: h\r\n\r\n", b"GET http://[v1.x]/ HTTP/1.1\r\nHost: h\r\n\r\n"]
+                   b"GET http://h:-1/ HTTP/1.1\r\nHost: h\r\n\r\n", b"GET http://[v1.x]/ HTTP/1.1\r\nHost: h\r\n\r\n",
+                   b"GET //%5Bx/ HTTP/1.1\r\nHost: h\r\n\r\n", b"GET /%5B::1/?q=%5D HTTP/1.1\r\nHost: h\r\n\r\n", b"GET http://:99/x HTTP/1.1\r\nHost: h\r\n\r\n"]
     v["hugeline"] = [b"GET /" + b"a" * 70000 + b" HTTP/1.1\r\nHost: h\r\n\r\n", b"GET / HTTP/1.1\r\nHost: " + b"h" * 70000 + b"\r\n\r\n",
                      b"a" * 70000]
     v["badstart"] = [b"\r\n\r\n", b"GARBAGE\r\n\r\n", b"GET\r\n\r\n", b"GET / HTTP/9.9\r\nHost: h\r\n\r\n", b"BAD / HTTP/1.1\r\nHost: h\r\n\r\n",
@@ -58,6 +59,15 @@ def response_variants():
                      b"HTTP/1.1 99999 X\r\n\r\n", b"HTTP/1.1 20 X\r\n\r\n", b"\x00\xff\r\n\r\n", b"HTTP/1.1 200\r\n\r\n"]
     v["badchunk"] = [b"HTTP/1.1 200 OK\r\nTransfer-Encoding: chunked\r\n\r\n" + s + b"\r\nok\r\n0\r\n\r\n" for s in (b"zz", b"-2", b"+2", b"0x2", b"", b"\xff")]
     v["chunkend"] = [b"HTTP/1.1 200 OK\r\nTransfer-Encoding: chunked\r\n\r\n2\r\nokXX0\r\n\r\n"]
+    v["continue"] = [b"HTTP/1.1 100 Continue\r\n\r\n" + ok, b"HTTP/1.1 100 Continue\r\nX: y\r\n\r\n" + ok,
+                     b"HTTP/1.1 100 Continue\r\nX: y\r\nZ: w\r\n\r\nHTTP/1.1 100 Continue\r\n\r\n" + ok]
+    v["badredirect"] = [b"HTTP/1.1 302 Found\r\nLocation: http://:99/x\r\nContent-Length: 0\r\n\r\n",
+                        b"HTTP/1.1 302 Found\r\nLocation: http://no.such.host.invalid/x\r\nContent-Length: 0\r\n\r\n",
+                        b"HTTP/1.1 301 Moved\r\nLocation: //\r\nContent-Length: 0\r\n\r\n",
+                        b"HTTP/1.1 307 T\r\nLocation: http://h:0x50/\r\nContent-Length: 0\r\n\r\n",
+                        b"HTTP/1.1 303 See\r\nLocation: ftp://127.0.0.1/x\r\nContent-Length: 0\r\n\r\n",
+                        b"HTTP/1.1 302 Found\r\nLocation: \xff\xfe\r\nContent-Length: 0\r\n\r\n",
+                        b"HTTP/1.1 302 Found\r\nLocation: ?\r\nContent-Length: 0\r\n\r\n"]
     v["badcl"] = [b"HTTP/1.1 200 OK\r\nContent-Length: abc\r\n\r\nok", b"HTTP/1.1 200 OK\r\nContent-Length: -1\r\n\r\nok"]
     v["hugeline"] = [b"HTTP/1.1 200 " + b"O" * 70000 + b"\r\n\r\n", b"HTTP/1.1 200 OK\r\nX: " + b"y" * 70000 + b"\r\n\r\n"]
     v["nonascii"] = [b"HTTP/1.1 200 \xff\xfe\r\nContent-Length: 0\r\n\r\n", b"HTTP/1.1 200 OK\r\nX-\xff: \xfe\r\nContent-Length: 0\r\n\r\n",
@@ -155,7 +165,7 @@ def run(ctx):
 
 def run_(ctx):
     classes = {"valid", "valid10", "nospace", "badchunk", "chunkend", "badurl", "hugeline", "badstart", "badcl", "nonascii",
-               "manyheaders", "truncated", "random", "mutated"}
+               "manyheaders", "truncated", "random", "mutated", "continue", "badredirect"}
     consts = {"Conns": {1, 2}, "Classes": classes, "MaxSteps": 3}
     r = ctx.tlc("http", "Robust", core.cfg_text(constants=dict(consts, Classes={"valid", "nospace", "random"}),
                                                 invariants=["NeverRaised"], properties=["SiblingServed"]))
